@@ -74,10 +74,10 @@ type world struct {
 	eng   *engine.ControllerEngine
 	hits  *hitLog
 
-	mu        sync.Mutex
+	mu         sync.Mutex
 	instances_ map[string][]*fakeController
-	failNext  map[string]bool
-	removed   map[schema.GroupVersionKind]bool // RemoveInformer was issued for this kind at some point
+	failNext   map[string]bool
+	removed    map[schema.GroupVersionKind]bool // RemoveInformer was issued for this kind at some point
 }
 
 func newWorld() *world {
@@ -345,109 +345,121 @@ func TestVerifC13Sequential(t *testing.T) {
 				continue // the collector's semantics are decided by TestVerifC13GC
 			}
 			o.Failing = false
-			res := w.exec(o)
-			hist = append(hist, o.String()+"="+res)
-			switch o.Kind {
-			case "Start":
-				if !running[o.Ctrl] {
-					running[o.Ctrl] = true
-					watches[o.Ctrl] = map[watchSpec]bool{}
-				}
-			case "Stop":
-				if running[o.Ctrl] && started {
-					interesting = true
-				}
-				if res != "<nil>" {
-					// An injected informer failure made Stop fail half-way: the controller keeps running and which of
-					// its watches were already stopped depends on map order. Re-synchronise the model from the engine's
-					// own listing; the invariants below (no unlisted live handler, at most one, ...) still bind.
-					rec.Label("stop-failed")
-					if !w.eng.IsRunning(o.Ctrl) {
-						t.Fatalf("Stop(%s) returned %q but the controller is no longer reported running; history %v", o.Ctrl, res, hist)
+			// One StartWatches in four is a "flaky start": the informer of its first kind fails once, and the
+			// request is retried twice - what a controller whose reconcile failed does on its next reconciles.
+			batch := []op{o}
+			if o.Kind == "StartWatches" && rapid.IntRange(0, 3).Draw(t, "flaky") == 0 {
+				batch = []op{{Kind: "FailGet", Ctrl: o.Ctrl, GVK: o.Watches[0].GVK.Kind}, o, o, o}
+				rec.Label("flaky-startwatches-retried")
+			}
+			for _, o := range batch {
+				res := w.exec(o)
+				hist = append(hist, o.String()+"="+res)
+				switch o.Kind {
+				case "Start":
+					if !running[o.Ctrl] {
+						running[o.Ctrl] = true
+						watches[o.Ctrl] = map[watchSpec]bool{}
 					}
-					l, _ := w.listed(o.Ctrl)
-					watches[o.Ctrl] = l
-					break
-				}
-				running[o.Ctrl] = false
-				watches[o.Ctrl] = nil
-			case "StartWatches":
-				if !running[o.Ctrl] {
-					if res == "<nil>" {
-						t.Fatalf("StartWatches on a controller that is not running succeeded; history %v", hist)
-					}
-					break
-				}
-				if res != "<nil>" {
-					if !strings.Contains(res, "injected") {
-						t.Fatalf("StartWatches failed: %s; history %v", res, hist)
-					}
-					rec.Label("startwatches-failed")
-					l, _ := w.listed(o.Ctrl)
-					watches[o.Ctrl] = l
-					break
-				}
-				started = true
-				for _, s := range o.Watches {
-					watches[o.Ctrl][s] = true
-				}
-				// "a watch lost with its informer is re-established by the next start request"; "at most one live watch"
-				att := attribute(w.cache, w.hits)
-				for _, s := range o.Watches {
-					if c := att[handlerID{o.Ctrl, s.Type, s.GVK}]; c != 1 {
-						if c == 0 && verifkit.OpenFinding("C13", "shared-informer-restart") && w.sharedRestart(o.Ctrl, s) {
-							rec.Label("known:shared-informer-restart")
-							continue
-						}
-						t.Fatalf("after StartWatches(%s, %v) the watch %v has %d live event handlers, want exactly 1; history %v", o.Ctrl, o.Watches, s, c, hist)
-					}
-				}
-			case "StopWatches":
-				if running[o.Ctrl] {
-					if strings.Contains(res, "injected") {
-						rec.Label("stopwatches-failed")
+				case "Stop":
+					if running[o.Ctrl] && started {
 						interesting = true
+					}
+					if res != "<nil>" {
+						// An injected informer failure made Stop fail half-way: the controller keeps running and which of
+						// its watches were already stopped depends on map order. Re-synchronise the model from the engine's
+						// own listing; the invariants below (no unlisted live handler, at most one, ...) still bind.
+						rec.Label("stop-failed")
+						if !w.eng.IsRunning(o.Ctrl) {
+							t.Fatalf("Stop(%s) returned %q but the controller is no longer reported running; history %v", o.Ctrl, res, hist)
+						}
 						l, _ := w.listed(o.Ctrl)
-						// a watch whose stop failed must still be listed: it is still live
 						watches[o.Ctrl] = l
 						break
 					}
+					running[o.Ctrl] = false
+					watches[o.Ctrl] = nil
+				case "StartWatches":
+					if !running[o.Ctrl] {
+						if res == "<nil>" {
+							t.Fatalf("StartWatches on a controller that is not running succeeded; history %v", hist)
+						}
+						break
+					}
+					if res != "<nil>" {
+						if !strings.Contains(res, "injected") {
+							t.Fatalf("StartWatches failed: %s; history %v", res, hist)
+						}
+						rec.Label("startwatches-failed")
+						l, _ := w.listed(o.Ctrl)
+						watches[o.Ctrl] = l
+						break
+					}
+					started = true
 					for _, s := range o.Watches {
-						delete(watches[o.Ctrl], s)
+						watches[o.Ctrl][s] = true
+					}
+					// "a watch lost with its informer is re-established by the next start request"; "at most one live watch"
+					att := attribute(w.cache, w.hits)
+					for _, s := range o.Watches {
+						if c := att[handlerID{o.Ctrl, s.Type, s.GVK}]; c != 1 {
+							if c == 0 && verifkit.OpenFinding("C13", "shared-informer-restart") && w.sharedRestart(o.Ctrl, s) {
+								rec.Label("known:shared-informer-restart")
+								continue
+							}
+							t.Fatalf("after StartWatches(%s, %v) the watch %v has %d live event handlers, want exactly 1; history %v", o.Ctrl, o.Watches, s, c, hist)
+						}
+					}
+				case "StopWatches":
+					if running[o.Ctrl] {
+						if strings.Contains(res, "injected") {
+							rec.Label("stopwatches-failed")
+							interesting = true
+							l, _ := w.listed(o.Ctrl)
+							// a watch whose stop failed must still be listed: it is still live
+							watches[o.Ctrl] = l
+							break
+						}
+						for _, s := range o.Watches {
+							delete(watches[o.Ctrl], s)
+						}
+					}
+				case "RemoveInformer":
+					if started {
+						interesting = true
 					}
 				}
-			case "RemoveInformer":
-				if started {
-					interesting = true
+				// invariants after every step
+				for _, c := range ctrlNames {
+					if got := w.eng.IsRunning(c); got != running[c] {
+						t.Fatalf("IsRunning(%s)=%v, model says %v; history %v", c, got, running[c], hist)
+					}
+					l, ok := w.listed(c)
+					if ok != running[c] {
+						t.Fatalf("GetWatches(%s) ok=%v but running=%v; history %v", c, ok, running[c], hist)
+					}
+					if ok && fmt.Sprint(sortedSpecs(l)) != fmt.Sprint(sortedSpecs(watches[c])) {
+						t.Fatalf("GetWatches(%s)=%v, model says %v; history %v", c, sortedSpecs(l), sortedSpecs(watches[c]), hist)
+					}
+					w.settle(func() bool {
+						a, p := w.instances(c)
+						return p == 0 && ((running[c] && a == 1) || (!running[c] && a == 0))
+					})
+					if ok, a, p := w.instancesOK(c, running[c]); !ok {
+						t.Fatalf("controller %s: running=%v but %d live (started, uncancelled) and %d pending controller instances; history %v", c, running[c], a, p, hist)
+					}
 				}
-			}
-			// invariants after every step
-			for _, c := range ctrlNames {
-				if got := w.eng.IsRunning(c); got != running[c] {
-					t.Fatalf("IsRunning(%s)=%v, model says %v; history %v", c, got, running[c], hist)
-				}
-				l, ok := w.listed(c)
-				if ok != running[c] {
-					t.Fatalf("GetWatches(%s) ok=%v but running=%v; history %v", c, ok, running[c], hist)
-				}
-				if ok && fmt.Sprint(sortedSpecs(l)) != fmt.Sprint(sortedSpecs(watches[c])) {
-					t.Fatalf("GetWatches(%s)=%v, model says %v; history %v", c, sortedSpecs(l), sortedSpecs(watches[c]), hist)
-				}
-				w.settle(func() bool { a, p := w.instances(c); return p == 0 && ((running[c] && a == 1) || (!running[c] && a == 0)) })
-				if ok, a, p := w.instancesOK(c, running[c]); !ok {
-					t.Fatalf("controller %s: running=%v but %d live (started, uncancelled) and %d pending controller instances; history %v", c, running[c], a, p, hist)
-				}
-			}
-			att := attribute(w.cache, w.hits)
-			for id, c := range att {
-				if c > 1 {
-					t.Fatalf("%d live event handlers for %v (at most one live watch per controller, type and kind); history %v", c, id, hist)
-				}
-				if !running[id.Controller] {
-					t.Fatalf("controller %s is stopped but still has a live event handler %v; history %v", id.Controller, id, hist)
-				}
-				if !watches[id.Controller][watchSpec{id.Type, id.GVK}] {
-					t.Fatalf("live event handler %v for a watch the engine does not list (leaked); history %v", id, hist)
+				att := attribute(w.cache, w.hits)
+				for id, c := range att {
+					if c > 1 {
+						t.Fatalf("%d live event handlers for %v (at most one live watch per controller, type and kind); history %v", c, id, hist)
+					}
+					if !running[id.Controller] {
+						t.Fatalf("controller %s is stopped but still has a live event handler %v; history %v", id.Controller, id, hist)
+					}
+					if !watches[id.Controller][watchSpec{id.Type, id.GVK}] {
+						t.Fatalf("live event handler %v for a watch the engine does not list (leaked); history %v", id, hist)
+					}
 				}
 			}
 		}
